@@ -80,6 +80,10 @@ type Config struct {
 	Strategy   Strategy
 	StepCap    int
 	KillAt     int   // step at which the whole process group is killed; <0: never
+	// DiskFullAt > 0: the DiskFullAt-th write that Go code (not a shell command)
+	// makes to a file below a task temp directory stores only half of the data
+	// and fails with ENOSPC (a short write on a full disk)
+	DiskFullAt int
 	ClockTick  int64 // ns added per time.Now() reading
 	ClockGran  int64 // readings truncated to a multiple of this (coarse clock); 0/1: exact
 	Epoch      int64 // unix ns of simulated time zero
